@@ -1,6 +1,6 @@
 (* one case per line, an s-expression:
      (run FUEL (pynorm (a b)...) (priv x...) (data (x v)...) (prog stmt...))
-        -> F <result> | S <result> | R <names passed to resolve, sorted, unique> | G <core><wf><noalias><rbw><core2>
+        -> F <result> | S <result> | R <names passed to resolve, sorted, unique> | G <core><wf><noalias><rbw><core2><core3>
      (sym (prog stmt...))
         -> the Symbols of every frame in enter_frame order
      (symf X (args e...) (pre stmt...) (body stmt...))
@@ -131,7 +131,7 @@ let () =
           let s = srender priv d fuel prog in
           let r = List.sort_uniq compare (List.map int_of_n (fresolves pynorm priv d fuel prog)) in
           let b x = if x then "1" else "0" in
-          let g = b (core_prog prog) ^ b (wf_names prog) ^ b (noalias pynorm prog) ^ b (guard_rbw prog d) ^ b (core2_prog prog) in
+          let g = b (core_prog prog) ^ b (wf_names prog) ^ b (noalias pynorm prog) ^ b (guard_rbw prog d) ^ b (core2_prog prog) ^ b (core3_prog true prog) in
           print_endline ("F " ^ show_obs f ^ " | S " ^ show_obs s ^ " | R " ^ String.concat "," (List.map string_of_int r) ^ " | G " ^ g)
       | L [A "sym"; L (A "prog" :: p)] ->
           let prog = List.map stmt p in
